@@ -33,7 +33,7 @@ CLAIMS = {
   note='Trusted: over-approximate call graph (name-based fallback) - sound for unreachability; the stdlib html.unescape is evaluated as the model of itself under the regex the program installs (sa/charref.py).', ref='2/C07'),
  'C08': dict(
   technique='charset-taint dataflow with per-character sanitiser images + template skeleton analysis with an HTML tokenizer state machine (abstract interpretation of every render method)',
-  text='For HtmlRenderer under every option valuation decides that no document-derived character that is special in a hole\'s context (text: < > &; double-quoted attribute: additionally ") reaches the output raw - including values that one render method stores in a renderer attribute and another reads back; every template is tag-balanced with void tags self-closed; raw document text is returned only for HtmlBlock/HtmlSpan, which are registered only under process_html_tokens, and with it off render() of such a token fails on every path; the <p>-suppression stack is restored on every normal path. Sanitiser effects are computed from their bodies. Round-trip of escaped text is not decided.',
+  text='For HtmlRenderer - and for the bundled renderers that extend it without an external highlighter (TocRenderer, GithubWikiRenderer, MathJaxRenderer) - under every option valuation decides that no document-derived character that is special in a hole\'s context (text: < > &; double-quoted attribute: additionally ") reaches the output raw - including values that one render method stores in a renderer attribute and another reads back; every template is tag-balanced with void tags self-closed; raw document text is returned only for HtmlBlock/HtmlSpan, which are registered only under process_html_tokens, and with it off render() of such a token fails on every path; the <p>-suppression stack is restored on every normal path. Sanitiser effects are computed from their bodies. Round-trip of escaped text is not decided.',
   note='Trusted: postconditions of html.escape and urllib.parse.quote; induction over the token tree for rendered children.', ref='2/C08'),
  'C09': dict(
   technique="reader/writer agreement on spelling attributes, label flow of each spelling attribute into the Markdown renderer's output with a trail of lossy operations, interpretation of the line assembly",
